@@ -144,7 +144,8 @@ pub fn req_send_race(rt: &tokio::runtime::Runtime, first_to_check: usize, hold_b
 }
 
 /// Two tasks call recv() on clones of one REP socket while two REQ peers have a request pending each.
-pub fn rep_recv_race(rt: &tokio::runtime::Runtime, first_to_check: usize, hold_both: bool) -> Outcome {
+/// `style`: 0 = both recv(), 1 = both recv_multipart(), 2 = one of each.
+pub fn rep_recv_race(rt: &tokio::runtime::Runtime, first_to_check: usize, hold_both: bool, style: usize) -> Outcome {
   let ctx = Context::new().expect("ctx");
   let (rep, reqs, _ep) = match rt.block_on(mk_pair(&ctx, 2)) {
     Ok(x) => x,
@@ -164,7 +165,12 @@ pub fn rep_recv_race(rt: &tokio::runtime::Runtime, first_to_check: usize, hold_b
     let res = results.clone();
     let ops: Vec<Box<dyn FnOnce() -> BoxFut + Send>> = vec![Box::new(move || {
       Box::pin(async move {
-        let r = r2.recv().await;
+        let multipart = style == 1 || (style == 2 && t == 1);
+        let r = if multipart {
+          r2.recv_multipart().await.map(|fr| fr.into_iter().last().unwrap_or_else(Msg::new))
+        } else {
+          r2.recv().await
+        };
         res.lock().unwrap().push((t, match r { Ok(m) => format!("ok:{}", String::from_utf8_lossy(m.data().unwrap_or(&[]))), Err(e) => crate::sock::err_kind(&e) }));
       })
     })];
@@ -207,7 +213,7 @@ pub fn rep_recv_race(rt: &tokio::runtime::Runtime, first_to_check: usize, hold_b
   rt.block_on(async {
     let _ = tokio::time::timeout(Duration::from_secs(3), ctx.term()).await;
   });
-  Outcome { scenario: format!("rep-recv-race(first={},hold_both={})", first_to_check, hold_both), schedule: trace, results: res.iter().map(|(t, r)| format!("t{}:{}", t, r)).collect(), issues }
+  Outcome { scenario: format!("rep-recv-race(first={},hold_both={},style={})", first_to_check, hold_both, ["recv", "recv_multipart", "mixed"][style]), schedule: trace, results: res.iter().map(|(t, r)| format!("t{}:{}", t, r)).collect(), issues }
 }
 
 pub fn run_all() -> Vec<Outcome> {
@@ -216,7 +222,9 @@ pub fn run_all() -> Vec<Outcome> {
   for first in 0..2 {
     for hold in [true, false] {
       outs.push(req_send_race(&rt, first, hold));
-      outs.push(rep_recv_race(&rt, first, hold));
+      for style in 0..3 {
+        outs.push(rep_recv_race(&rt, first, hold, style));
+      }
     }
   }
   rt.shutdown_timeout(Duration::from_millis(500));
